@@ -86,24 +86,36 @@ func fallibleHashRule(p *Prog, r *Result, rule string, roots []*ssa.Function, fl
 	r.rule(rule, "every function that tests a hash for the optional Err() method (hardware-backed HMACs report a failed computation only there) reports success only where the hash is not fallible or Err() returned nil after the last Sum")
 	r.floor(rule, floor)
 	region := p.Reachable(roots, func(fn *ssa.Function) bool { return isHarnessPkg(funcPkgPath(fn)) })
-	var fns []*ssa.Function
+	// T: functions that test a hash for fallibility; candidates: T and every
+	// function that calls a member of T (the test may live in a shared helper
+	// while the Sum it must follow stays in the caller)
+	T := map[*ssa.Function]bool{}
 	for fn := range region {
-		has := false
 		for _, b := range fn.Blocks {
 			for _, in := range b.Instrs {
 				if ta, ok := in.(*ssa.TypeAssert); ok && ta.CommaOk && isFallibleIface(ta.AssertedType) {
-					has = true
+					T[fn] = true
 				}
 			}
 		}
-		if has {
-			fns = append(fns, fn)
+	}
+	cand := map[*ssa.Function]bool{}
+	for fn := range T {
+		cand[fn] = true
+		for _, ed := range p.CallGraph().in[fn] {
+			if ed.Kind == "static" && region[ed.Caller] && callsSum(p, ed.Caller) {
+				cand[ed.Caller] = true
+			}
 		}
+	}
+	var fns []*ssa.Function
+	for fn := range cand {
+		fns = append(fns, fn)
 	}
 	sortFuncs(p, fns)
 	for _, fn := range fns {
 		g := fn
-		f := NewFlow(p, fallibleRules(), []*ssa.Function{g}, func(h *ssa.Function) bool { return h != g })
+		f := NewFlow(p, fallibleRules(), []*ssa.Function{g}, func(h *ssa.Function) bool { return h != g && !T[h] })
 		errIdx := g.Signature.Results().Len() - 1
 		if errIdx < 0 || !isErrorType(g.Signature.Results().At(errIdx).Type()) {
 			r.table(p, rule, "fallibility test in "+p.FuncName(g), p.Pos(g.Pos()), false, "function has no error result to report a failed hash through: undecided")
@@ -119,4 +131,18 @@ func sortFuncs(p *Prog, fns []*ssa.Function) {
 			fns[j], fns[j-1] = fns[j-1], fns[j]
 		}
 	}
+}
+
+func callsSum(p *Prog, fn *ssa.Function) bool {
+	for _, b := range fn.Blocks {
+		for _, in := range b.Instrs {
+			if call, ok := in.(ssa.CallInstruction); ok {
+				n := p.calleeOf(call.Common()).Name
+				if n == "hash.Hash.Sum" {
+					return true
+				}
+			}
+		}
+	}
+	return false
 }
